@@ -133,13 +133,16 @@ def run_malformed(chk, files, n):
             data = mutate(rng, data)
         b = rng.random() < 0.7
         cases.append({"hex": data.hex(), "branch": b})
-        exprs.append(vlib.app("run_lcov", b, list(data)) if not lcovgen.model_unfriendly(data) else "0")
     impl = vlib.run_impl("lcov", cases, chk.pid, parallel=4)
+    # the model is not evaluated where it would build the same giant vector as the implementation: decided by the text
+    # (huge branch number) or by what the implementation reported (the number can be hidden, e.g. split by a CR LF)
+    skip = [lcovgen.model_unfriendly(bytes.fromhex(c["hex"])) or "huge_branch_vector" in ri or "crash" in ri for c, ri in zip(cases, impl)]
+    exprs = [vlib.app("run_lcov", c["branch"], list(bytes.fromhex(c["hex"]))) if not sk else "0" for c, sk in zip(cases, skip)]
     model = vlib.run_model(chk.pid, "Run.Show", exprs)
     classes = {}
     disagreements = []
     known = {e["key"]: e for e in vlib.known_findings(chk.pid) if e.get("status") == "known"}
-    for case, ri, rm in zip(cases, impl, model):
+    for case, ri, rm, sk in zip(cases, impl, model, skip):
         chk.count()
         data = bytes.fromhex(case["hex"])
         a = lcovgen.results_from_impl(ri)
@@ -155,7 +158,7 @@ def run_malformed(chk, files, n):
             chk.violation({"kind": "oracle", "engine": "lcov", "case": case, "text": data.decode("latin-1"), "impl": a,
                            "clause": "malformed lcov input must give a result or an error, never a panic"}, tag="mal")
             continue
-        if lcovgen.model_unfriendly(data):
+        if sk:
             continue      # the Gallina model would build the same giant vector
         # names are modelled as bytes; from_utf8_lossy is outside the model, so results are compared
         # only when the input is valid UTF-8 (outcome class is compared always)
